@@ -42,89 +42,162 @@ def workspace(kind, features):
 def _norm(h):
     return h if h.startswith("proofs::") else "proofs::" + h
 
-def run_kani(features, harnesses, timeout_s, jobs=None, playback=False):
-    """Returns dict harness -> result dict."""
+KANI_LIB_C = os.path.expanduser("~/.kani/kani-0.68.0/library/kani/kani_lib.c")
+CBMC_FLAGS = ["--no-malloc-may-fail", "--no-undefined-shift-check", "--no-signed-overflow-check",
+              "--no-bounds-check", "--no-pointer-check", "--no-div-by-zero-check",
+              "--no-self-loops-to-assumptions", "--no-pointer-primitive-check", "--object-bits", "16",
+              "--sat-solver", "cadical", "--slice-formula", "--verbosity", "8", "--trace"]
+
+def codegen(features, harnesses):
+    """Compile /repo + harness crate with Kani and produce one linked goto binary per harness.
+    Returns ({harness: (goto_path, unwind)}, error_text_or_None)."""
+    import glob
     ws = workspace("kani", features)
-    jobs = jobs or min(len(harnesses), int(os.environ.get("VERIF_JOBS", "14")))
-    jpath = os.path.join(ws, "kani-%s.json" % key_of(*harnesses, str(playback), str(time.time())))
-    cmd = ["cargo", "kani", "--features", features, "--exact", "-Z", "unstable-options",
-           "--export-json", jpath, "--output-format", "terse"] + KANI_FLAGS
+    cmd = ["cargo", "kani", "--features", features, "--only-codegen", "--exact", "--no-assertion-reach-checks"]
     for h in harnesses:
         cmd += ["--harness", _norm(h)]
-    if jobs > 1 and not playback:
-        cmd += ["-j", str(jobs)]
-    if playback:
-        cmd += ["-Z", "concrete-playback", "--concrete-playback=print"]
-    cmd += ["--harness-timeout", "%ds" % timeout_s]
-    rc, out, secs = sh(cmd, cwd=ws, timeout=timeout_s + 600)
-    res = {}
-    data = None
-    if os.path.exists(jpath):
-        try:
-            data = json.load(open(jpath))
-        except Exception:
-            data = None
-        os.remove(jpath)
-    if data is None:
-        tail = "\n".join(out.splitlines()[-60:])
-        for h in harnesses:
-            res[h] = {"status": "error", "detail": "kani produced no result (rc=%s)\n%s" % (rc, tail), "wall_s": secs}
-        return res, out
-    stats = {c["harness_id"]: c.get("cbmc_stats", {}) for c in data.get("cbmc", [])}
-    errs = {e["harness_id"]: e for e in data.get("error_details", [])}
-    got = {}
-    for r in data.get("verification_results", {}).get("results", []):
-        got[r["harness_id"]] = r
-    for h in harnesses:
-        hid = _norm(h)
-        r = got.get(hid)
-        if r is None:
-            res[h] = {"status": "error", "detail": "harness missing from kani results: " + json.dumps(errs.get(hid)),
-                      "wall_s": secs}
+    rc, out, secs = sh(cmd, cwd=ws, timeout=3600)
+    if rc != 0:
+        return {}, "kani codegen failed (rc=%s):\n%s" % (rc, "\n".join(l for l in out.splitlines() if "register_tool" not in l and "unstable" not in l)[-6000:])
+    metas = sorted(glob.glob(os.path.join(ws, "target/kani/*/debug/build/vh/*/out/*.kani-metadata.json")), key=os.path.getmtime)
+    if not metas:
+        return {}, "no kani metadata produced"
+    meta = json.load(open(metas[-1]))
+    r = {}
+    for ph in meta.get("proof_harnesses", []):
+        name = ph["pretty_name"].replace("proofs::", "")
+        if name not in harnesses:
             continue
-        checks = r.get("checks", [])
-        failed = [c for c in checks if c["status"] in ("Failure",)]
-        undet = [c for c in checks if c["status"] in ("Undetermined", "Unknown")]
-        covers = [c for c in checks if c.get("category") == "cover" or c["status"] in ("Satisfied", "Unsatisfiable", "Unreachable") and "witness" in c.get("description", "")]
-        wit = [c for c in checks if c.get("description") == "witness"]
-        funcs = sorted({c["function"] for c in checks if c.get("location", {}).get("file", "").startswith(repo_path())})
-        st = "success" if r["status"] == "Success" else "failure"
-        e = errs.get(hid, {})
-        if st == "failure" and not failed:
-            st = "error"
-        if e.get("error_type") in ("timeout",) or "timeout" in json.dumps(e).lower():
-            st = "timeout"
-        res[h] = {
-            "status": st,
-            "failed": [{"description": c["description"], "function": c["function"],
-                        "file": c.get("location", {}).get("file"), "line": c.get("location", {}).get("line"),
-                        "category": c.get("category")} for c in failed],
-            "undetermined": len(undet),
-            "witness": [c["status"] for c in wit],
-            "n_checks": len(checks),
-            "functions": funcs,
-            "cbmc": stats.get(hid, {}),
-            "wall_s": r.get("duration_ms", 0) / 1000.0,
-            "error": e if e.get("has_errors") else None,
-        }
-    return res, out
+        sym = ph["goto_file"]
+        mangled = ph["mangled_name"]
+        goto = sym.replace(".symtab.out", ".verif.goto")
+        steps = [["goto-cc", sym, KANI_LIB_C, "-o", goto],
+                 ["goto-cc", goto, "--function", mangled, "-o", goto],
+                 ["goto-instrument", "--drop-unused-functions", goto, goto],
+                 ["goto-instrument", "--ensure-one-backedge-per-target", goto, goto]]
+        for st in steps:
+            rc, o, _ = sh(st, timeout=1200)
+            if rc != 0:
+                return {}, "goto pipeline failed: %s\n%s" % (" ".join(st), o[-2000:])
+        r[name] = (goto, ph["attributes"].get("unwind_value") or 1)
+    missing = [h for h in harnesses if h not in r]
+    if missing:
+        return r, "harnesses not found in kani metadata: %s" % missing
+    return r, None
 
-PB_RE = re.compile(r"Check for `(\w+)`: \"(.*?)\"\s*\n#\[test\]\nfn (\w+)\(\) \{\n\s*let concrete_vals: Vec<Vec<u8>> = vec!\[(.*?)\n\s*\];", re.S)
+RES_RE = re.compile(r"^\[(.+)\.([a-z_]+)\.(\d+)\] line (\d+) (.*): (SUCCESS|FAILURE|UNKNOWN|ERROR)$")
 
-def parse_playback(out, nbytes=None):
-    """Returns list of (category, description, hexbytes) from --concrete-playback=print output."""
-    r = []
-    for m in PB_RE.finditer(out):
-        cat, desc, _fn, body = m.groups()
-        vecs = re.findall(r"vec!\[([0-9, ]*)\]", body)
-        bs = []
-        for v in vecs:
-            xs = [int(x) for x in v.split(",") if x.strip() != ""]
-            if len(xs) != 1:
-                break          # the scenario input is the leading run of 1-byte values
-            bs.append(xs[0])
-        r.append((cat, desc, bytes(bs).hex() if bs else None))
-    return r
+def parse_cbmc(text):
+    checks = []
+    cur_file = cur_func = None
+    for line in text.splitlines():
+        if " function " in line and not line.startswith("["):
+            parts = line.rsplit(" function ", 1)
+            if len(parts) == 2 and not parts[0].startswith(" "):
+                cur_file, cur_func = parts[0].strip(), parts[1].strip()
+                continue
+        m = RES_RE.match(line)
+        if m:
+            func, cls, n, ln, desc, st = m.groups()
+            desc = re.sub(r"^\[KANI_CHECK_ID_[^\]]*\]\s*", "", desc)
+            checks.append(dict(name="%s.%s.%s" % (func, cls, n), function=func, cls=cls, line=ln, description=desc,
+                               status=st, file=cur_file))
+    stats = {}
+    m = re.search(r"size of program expression: (\d+) steps", text)
+    if m:
+        stats["program_steps"] = int(m.group(1))
+    vc = re.findall(r"(\d+) variables, (\d+) clauses", text)
+    if vc:
+        stats["sat_variables"] = int(vc[0][0])
+        stats["sat_clauses"] = int(vc[0][1])
+        stats["sat_calls"] = len(vc)
+    for k, pat in (("symex_s", r"Runtime Symex: ([0-9.e+-]+)s"), ("convert_s", r"Runtime Convert SSA: ([0-9.e+-]+)s")):
+        m = re.search(pat, text)
+        if m:
+            stats[k] = float(m.group(1))
+    stats["solver_s"] = round(sum(float(x) for x in re.findall(r"Runtime Solver: ([0-9.e+-]+)s", text)), 3)
+    m = re.search(r"Generated (\d+) VCC\(s\), (\d+) remaining", text)
+    if m:
+        stats["vccs"] = int(m.group(1))
+        stats["vccs_remaining"] = int(m.group(2))
+    # traces: "Trace for <property>:" blocks; the scenario input is the harness local `raw`
+    traces = {}
+    blocks = re.split(r"^Trace for (.+):$", text, flags=re.M)
+    for k in range(1, len(blocks) - 1, 2):
+        prop = blocks[k].strip()
+        ms = re.findall(r"^\s*raw=\{ ([^}]*) \}", blocks[k + 1], flags=re.M)
+        if ms:
+            ws = [int(x.strip().rstrip("ul")) for x in ms[-1].split(",")]
+            traces[prop] = ",".join("%x" % w for w in ws)
+    done = ("VERIFICATION SUCCESSFUL" in text) or ("VERIFICATION FAILED" in text)
+    return checks, stats, traces, done
+
+def run_cbmc(goto, unwind, timeout_s, mem_gb=24):
+    cmd = ["cbmc"] + CBMC_FLAGS + ["--unwind", str(unwind), goto]
+    rc, out, secs = sh(cmd, timeout=timeout_s, mem_gb=mem_gb)
+    return rc, out, secs
+
+def run_kani(features, harnesses, timeout_s, jobs=None):
+    """Decide each harness with CBMC.  Returns (dict harness -> result dict, raw text)."""
+    from concurrent.futures import ThreadPoolExecutor
+    harnesses = list(harnesses)
+    res = {}
+    t0 = time.time()
+    gotos, err = codegen(features, harnesses)
+    cg = time.time() - t0
+    if err:
+        for h in harnesses:
+            res[h] = {"status": "error", "detail": err, "wall_s": cg}
+        return res, err
+    jobs = jobs or min(len(harnesses), int(os.environ.get("VERIF_JOBS", "8")))
+    tmo = timeout_s if isinstance(timeout_s, dict) else {h: timeout_s for h in harnesses}
+    def one(h):
+        goto, unwind = gotos[h]
+        rc, out, secs = run_cbmc(goto, unwind, tmo[h])
+        return h, rc, out, secs
+    raw = []
+    with ThreadPoolExecutor(max_workers=jobs) as ex:
+        for h, rc, out, secs in ex.map(one, harnesses):
+            checks, stats, traces, done = parse_cbmc(out)
+            raw.append(out[-3000:])
+            r = {"wall_s": round(secs, 1), "cbmc": stats, "n_checks": len([c for c in checks if c["cls"] != "reachability_check"])}
+            if rc == -9:
+                r.update(status="timeout", detail="cbmc exceeded %ds" % tmo[h])
+            elif not done:
+                tail = "\n".join(out.splitlines()[-15:])
+                r.update(status="error", detail="cbmc did not finish (rc=%s; out of memory?)\n%s" % (rc, tail))
+            else:
+                failed, wit, unwindf, unsupported = [], [], [], []
+                for c in checks:
+                    if c["cls"] == "reachability_check":
+                        continue
+                    if c["cls"] == "cover":
+                        if c["description"] == "witness":
+                            wit.append("Satisfied" if c["status"] == "FAILURE" else "Unsatisfiable")
+                        continue
+                    if c["status"] == "SUCCESS":
+                        continue
+                    if c["cls"] == "unwind" or "unwinding assertion" in c["description"]:
+                        unwindf.append(c)
+                    elif c["cls"] == "unsupported_construct":
+                        unsupported.append(c)
+                    else:
+                        failed.append(c)
+                funcs = sorted({c["function"] for c in checks if (c.get("file") or "").startswith(repo_path())})
+                r.update(witness=wit, functions=funcs)
+                if unwindf:
+                    r.update(status="failure", failed=[dict(description="unwinding assertion: " + c["description"], function=c["function"],
+                                                            file=c["file"], line=c["line"], category="unwind", name=c["name"]) for c in unwindf])
+                elif unsupported:
+                    r.update(status="error", detail="reachable unsupported construct: " + "; ".join(c["description"] for c in unsupported)[:500])
+                elif failed:
+                    r.update(status="failure", failed=[dict(description=c["description"], function=c["function"], file=c["file"],
+                                                            line=c["line"], category=c["cls"], name=c["name"],
+                                                            input=traces.get(c["name"])) for c in failed])
+                else:
+                    r.update(status="success", failed=[])
+            res[h] = r
+    return res, "\n".join(raw)
 
 def build_native(features):
     ws = workspace("native", features)
@@ -150,8 +223,10 @@ def native_replay(features, scenario, hexbytes, tries=300):
     except Exception:
         return "error", out[-2000:]
 
-def scenario_len(scenario):
-    """Input length of a scenario, read from the registry table."""
-    t = open(os.path.join(HARNESS, "src", "registry_table.rs")).read()
-    m = re.search(r"\b%s\s*:\s*([^=]+?)=>" % re.escape(scenario), t)
-    return m.group(1).strip() if m else None
+def scenario_len(features, scenario):
+    """Input length (u64 words) of a scenario, asked from the native replay binary."""
+    exe, out = build_native(features)
+    if exe is None:
+        raise RuntimeError("native build failed:\n" + "\n".join(out.splitlines()[-40:]))
+    rc, out, _ = sh([exe, "--len", scenario])
+    return int(out.strip().splitlines()[-1])
